@@ -24,7 +24,7 @@ type viewInfo struct {
 
 // isHelper: callee may be folded into its callers' views.
 func (p *Program) isHelper(caller, callee *ssa.Function) bool {
-	if callee == nil || callee.Pkg == nil || !ssa.Inlinable(callee) {
+	if callee == nil || callee.Pkg == nil || !(ssa.Inlinable(callee) || p.tailOnly(callee)) {
 		return false
 	}
 	if !inUniverse(callee.Pkg.Pkg.Path()) || p.isTestFile(callee.Pos()) {
@@ -76,6 +76,43 @@ func (p *Program) isHelper(caller, callee *ssa.Function) bool {
 		n += len(b.Instrs)
 	}
 	return n <= 400
+}
+
+// tailOnly: callee defers, and every call of it (outside tests) is a tail call of its caller: it can be folded
+// into each of them without changing when the deferred calls run.
+func (p *Program) tailOnly(callee *ssa.Function) bool {
+	if v, ok := p.tailOnlyMemo[callee]; ok {
+		return v
+	}
+	if p.tailOnlyMemo == nil {
+		p.tailOnlyMemo = map[*ssa.Function]bool{}
+	}
+	res := false
+	defer func() { p.tailOnlyMemo[callee] = res }()
+	if len(callee.Blocks) == 0 || len(callee.FreeVars) > 0 || callee.Parent() != nil {
+		return false
+	}
+	node := p.CallGraph().Nodes[callee]
+	if node == nil {
+		return false
+	}
+	n := 0
+	for _, e := range node.In {
+		c := e.Caller.Func
+		if c == nil || e.Site == nil || p.isTestFile(c.Pos()) {
+			continue
+		}
+		if e.Site.Common().StaticCallee() != callee {
+			return false // reached dynamically: it is called in ways the views cannot fold
+		}
+		call, isCall := e.Site.(*ssa.Call)
+		if !isCall || !ssa.TailSite(call, callee) {
+			return false
+		}
+		n++
+	}
+	res = n > 0
+	return res
 }
 
 // protected: functions the rules address directly (roles, constructors, session-table methods).
